@@ -98,6 +98,10 @@ type DecimateState struct {
 // ConfigurePulseLengths sets this stream's pulse length and # of presamples.
 // Also removes any existing projectors and basis.
 func (dsp *DataStreamProcessor) ConfigurePulseLengths(nsamp, npre int) error {
+	// Validate before changing anything, so a rejected request leaves the processor untouched.
+	if err := dsp.checkPulseLengths(nsamp, npre); err != nil {
+		return err
+	}
 	// if nsamp or npre is invalid, panic, do not silently ignore
 	if dsp.NSamples != nsamp || dsp.NPresamples != npre {
 		dsp.removeProjectorsBasis()
@@ -109,26 +113,34 @@ func (dsp *DataStreamProcessor) ConfigurePulseLengths(nsamp, npre int) error {
 	dsp.NPresamples = npre
 	dsp.EMTState.nsamp = int32(nsamp)
 	dsp.EMTState.npre = int32(npre)
-	if dsp.EdgeMulti && !dsp.EMTState.valid() {
+	dsp.EMTState.reset()
+	return nil
+}
+
+// checkPulseLengths reports whether ConfigurePulseLengths(nsamp, npre) would be rejected.
+func (dsp *DataStreamProcessor) checkPulseLengths(nsamp, npre int) error {
+	newEMT := dsp.EMTState
+	newEMT.nsamp = int32(nsamp)
+	newEMT.npre = int32(npre)
+	if dsp.EdgeMulti && !newEMT.valid() {
 		return fmt.Errorf("dsp.EMTState in invalid")
 	}
-	dsp.EMTState.reset()
 	return nil
 }
 
 // ConfigureTrigger sets this stream's trigger state.
 func (dsp *DataStreamProcessor) ConfigureTrigger(state TriggerState) error {
+	// we currently have two locations where we have nsamp and npre inside a dsp
+	// we should fix that, but for now just keep them in sync
+	state.EMTState.nsamp = int32(dsp.NSamples)
+	state.EMTState.npre = int32(dsp.NPresamples)
+	// Validate before changing anything, so a rejected request leaves the processor untouched.
+	if state.EdgeMulti && !state.EMTState.valid() {
+		return fmt.Errorf("dsp.EMTState in invalid")
+	}
 	dsp.TriggerState = state
 	dsp.LastTrigger = 0 // forget the Last Trigger, so that all channels will auto trigger
 	// at the same starting point when you send new trigger settings
-
-	// we currently have two locations where we have nsamp and npre inside a dsp
-	// we should fix that, but for now just keep them in sync	dsp.EMTState.nsamp = int32(dsp.NSamples)
-	dsp.EMTState.nsamp = int32(dsp.NSamples)
-	dsp.EMTState.npre = int32(dsp.NPresamples)
-	if dsp.EdgeMulti && !dsp.EMTState.valid() {
-		return fmt.Errorf("dsp.EMTState in invalid")
-	}
 	dsp.EMTState.reset()
 	return nil
 }
